@@ -22,6 +22,10 @@ func gen(stream, tier string, seed uint64) {
 		genJsonDec(tier, seed)
 	case "jsonenc":
 		genJsonEnc(tier, seed)
+	case "rdops":
+		genRdOps(tier, seed)
+	case "sched":
+		genSched(tier, seed)
 	default:
 		fmt.Fprintln(os.Stderr, "unknown stream", stream)
 		os.Exit(2)
